@@ -60,6 +60,12 @@ let () =
               let b = List.map z_of_int bytes in
               ms.(k) <- Some (m_setfill m b); ss.(k) <- Some (s_setfill s b); out "F" "ok" "ok"
             | _ -> out "F" "fail" "fail")
+         | "A", [k] ->
+           (match slot k with
+            | Some (m, s) ->
+              let f = function Some p -> "ok" ^ bytes_str (List.concat p) | None -> "none" in
+              out "A" (f m.m_fill) (f s.s_fill)
+            | None -> out "A" "fail" "fail")
          | "Z", [k; _; _] ->
            (match slot k with
             | Some (m, _) -> ms.(k) <- Some (m_setcomp m); out "Z" "ok" "ok"
